@@ -196,8 +196,14 @@ def handle (j : Json) : Except String Json := do
   | "auth" =>
     let c ← parseCfg (← j.getObjVal? "cfg")
     let ops ← (← getArr j "ops").toList.mapM parseOp
-    pure (Json.mkObj [("wire", Json.arr ((run c ⟨none⟩ ops).map wireJ).toArray),
+    let k := (getNat j "fail_first").toOption.getD 0
+    pure (Json.mkObj [("wire", Json.arr ((run c (fun i => decide (i < k)) ⟨none, 0⟩ ops).map wireJ).toArray),
                       ("expected", mdJ (some (expectedMetadata c)))])
+  | "auth_conc" =>
+    let c ← parseCfg (← j.getObjVal? "cfg")
+    let n ← getNat j "threads"
+    let sched ← (← getArr j "sched").toList.mapM (fun t => t.getNat?)
+    pure (Json.mkObj [("sent", Json.arr ((crun c n sched).sent.map (fun md => mdJ (some md))).toArray)])
   | _ => throw s!"unknown op {op}"
 
 def main : IO Unit := serve handle
